@@ -1,3 +1,4 @@
+CONSTANT Intact <- AllIntact
 SPECIFICATION Spec
 INVARIANTS TypeOK
 ACTION_CONSTRAINT Export
